@@ -165,6 +165,8 @@ def main(argv=None):
                 else:
                     r['reason'] = 'sufficient condition %r not established and no input found on which the property itself fails' % r.get('label')
                     undecided.append(r)
+            elif r['cls'] == 'I' and (r.get('evaluator_replay') or {}).get('outcome') == 'holds':
+                broken.append('loop-step obligation %s refuted by the solver but its model does not fail when replayed with concrete values through the evaluator' % r['id'])
             elif r.get('opaque') or r['cls'] == 'I' or not r.get('inputs'):
                 violations.append((r, path, ' no-failing-input-found'))
             else:
@@ -215,7 +217,7 @@ def write_replay(prop, r):
     path = os.path.join(VERIF, 'replays', prop, name + '.json')
     doc = {'property': prop, 'obligation': r['id'], 'clause': r.get('label'), 'case': r.get('case'), 'inputs': r.get('inputs'),
            'functions': r.get('funcs'), 'sources': source_hashes(r.get('funcs') or []), 'solver': r.get('detail'),
-           'verifier_output': {k: r.get(k) for k in ('status', 'label', 'detail', 'trace', 'backend', 'solver_s', 'paths')}}
+           'verifier_output': {k: r.get(k) for k in ('status', 'label', 'detail', 'trace', 'backend', 'solver_s', 'paths', 'evaluator_replay')}}
     with open(path, 'w') as f: json.dump(doc, f, indent=1, default=str)
     return path
 
